@@ -31,6 +31,7 @@
 EXTENDS Naturals, Integers, Sequences, FiniteSets, TLC
 
 CONSTANTS Ctx, NLanes, B, P, SegLens, MaxTotal, NoCtx,
+          SbThreshold,  \* flush with at most this many live lanes uses the single-buffer kernel: only the minimum lane advances
           TrackStream   \* keep the per-context list of segments (needed only for the refinement check; a history variable)
 
 Lanes == 0..(NLanes - 1)
@@ -82,8 +83,16 @@ MgrSubmit(s, c) ==
       s1 == [s EXCEPT !.unused = Tail(@), !.owner[lane] = c, !.lens[lane] = s.ctx[c].job[3], !.cur[lane] = 0]
   IN IF s1.unused # << >> THEN << s1, NONE >> ELSE RunMin(s1)
 
+\* single-buffer path of flush (sha1/sha256_ni_x1, *_opt_x1): the minimum lane is finished on its own, the others wait
+RunSingle(s) ==
+  LET l0 == MinLane(s)
+      c0 == s.owner[l0]
+      cx == Absorb(s.ctx[c0], s.cur[l0], s.lens[l0], s.ctx[c0].job)
+  IN << [s EXCEPT !.ctx[c0] = cx, !.owner[l0] = NONE, !.lens[l0] = 0, !.cur[l0] = 0, !.unused = << l0 >> \o @], c0 >>
+
 \* *_mb_mgr_flush
-MgrFlush(s) == IF Occupied(s) = {} THEN << s, NONE >> ELSE RunMin(s)
+MgrFlush(s) == IF Occupied(s) = {} THEN << s, NONE >>
+               ELSE IF Cardinality(Occupied(s)) <= SbThreshold /\ MinLen(s) > 0 THEN RunSingle(s) ELSE RunMin(s)
 
 \* ---------------------------------------------------------------- *_ctx_mgr_resubmit
 RECURSIVE Resubmit(_, _, _), Tail2(_, _, _, _)
